@@ -2040,6 +2040,9 @@ case_string:
                     *to++ = 0;
                     scr_tail = to;
                     *to = (unsigned char)(to - scr_last);
+#ifdef NEOLITH_VERIF
+                    VERIF_CTRACE ("scr.push", scr_tail - (scratch_end - SCRATCHPAD_SIZE), SCRATCHPAD_SIZE - 1);
+#endif
                     yylval.string = (char *) scr_last;
                     if (wide_char_literal)
                       ensure_valid_wide_string (yylval.string);
